@@ -19,11 +19,6 @@
      entry <hex>                  -> true|false          (is_entry_name)
      consts                       -> mtime_interval trim_interval trim_limit, then in hex the
                                      trim.txt name, the index suffix and the data suffix
-   The translated segments of cache.go (Gen/CacheSrc.v), each answering PANIC / OUTOFFUEL when it does:
-     srcdue <now> <trimtxt>       -> true|false   (src_Cache_Trim_due: true = the scan runs)
-     srcfresh <mtime> <now>       -> keep|touch   (src_Cache_used_fresh after a successful Stat)
-     srcremove <now> <name> <mtime> -> skip|keep|remove   (src_Cache_trimSubdir_candidate, then
-                                     src_Cache_trimSubdir_stale at src_Cache_Trim_cutoff after a successful Stat)
 *)
 
 let z_of_small n = if n = 0 then Z0 else if n > 0 then Zpos (pos_of_int n) else Zneg (pos_of_int (-n))
@@ -142,22 +137,4 @@ let () = serve (fun req ->
   | ["consts"] ->
       String.concat " " [string_of_z mtime_interval; string_of_z trim_interval; string_of_z trim_limit;
                          hex_of_bytes trim_file_name; hex_of_bytes index_suffix; hex_of_bytes data_suffix]
-  | ["srcdue"; now; record] ->
-      (match src_Cache_Trim_due (time_of_ns (z_of_string now)) (bytes_of_hex record) with
-       | Ok (Normal _) -> "true" | Ok (Return false) -> "false" | Ok _ -> "BAD-OUTCOME"
-       | Panic -> "PANIC" | OutOfFuel -> "OUTOFFUEL")
-  | ["srcfresh"; mtime; now] ->
-      (match src_Cache_used_fresh (time_of_ns (z_of_string mtime)) false (time_of_ns (z_of_string now)) with
-       | Ok (Return _) -> "keep" | Ok (Normal _) -> "touch" | Ok _ -> "BAD-OUTCOME"
-       | Panic -> "PANIC" | OutOfFuel -> "OUTOFFUEL")
-  | ["srcremove"; now; name; mtime] ->
-      (match src_Cache_trimSubdir_candidate [] (bytes_of_hex name) with
-       | Ok (Continue _) -> "skip"
-       | Ok (Normal _) ->
-           (match src_Cache_Trim_cutoff (time_of_ns (z_of_string now)) with
-            | Ok (Normal cutoff) ->
-                (match src_Cache_trimSubdir_stale cutoff (time_of_ns (z_of_string mtime)) false with
-                 | Ok true -> "remove" | Ok false -> "keep" | Panic -> "PANIC" | OutOfFuel -> "OUTOFFUEL")
-            | Ok _ -> "BAD-OUTCOME" | Panic -> "PANIC" | OutOfFuel -> "OUTOFFUEL")
-       | Ok _ -> "BAD-OUTCOME" | Panic -> "PANIC" | OutOfFuel -> "OUTOFFUEL")
   | _ -> "BAD-REQUEST")
